@@ -107,6 +107,8 @@ def run(ctx, rep):
     forms.check_call_args(ctx, rep, 'R14.d', {P + '::delete_segment': {'Partition::get_segment_mut': ['start_offset']},
                                               P + '::filter_segments_by_offsets': {'Option::unwrap_or': ['0']}})    # nothing at or below the requested offset ⇒ start from the first segment
     check_comparisons(ctx, rep, 'R14.d', {P + '::delete_segment': ['(s.start_offset != start_offset)']})
+    forms.check_aggregates(ctx, rep, 'R14.d', {P + '::delete_segment': {'server::streaming::partitions::segments::DeletedSegment': {
+        'end_offset': 'Partition::get_segment(self, start_offset).end_offset', 'messages_count': 'Segment::get_messages_count(Partition::get_segment(self, start_offset))'}}})    # reported end offset / count are those of the deleted segment
 
     rep.rule('R14.e', 'expiry updates reach the topic, every partition and every segment', floor=3, analysis='A2 loop coverage')
     ST = 'server::streaming::streams::stream::Stream::update_topic'
